@@ -346,6 +346,62 @@ def gen_bundled():
     return "\n".join(out)
 
 
+# ==========================================================================================
+# default parameter values of public signatures -> Gen/Defaults.v
+# ==========================================================================================
+DEFAULT_FILES = ["weaver.py", "match.py", "rfa.py", "process.py", "sorted_array_utils.py", os.path.join("datasets", "_base.py")]
+
+
+def _dv(node):
+    if isinstance(node, ast.Constant):
+        v = node.value
+        if v is None:
+            return "DNone"
+        if isinstance(v, bool):
+            return "DBool %s" % ("true" if v else "false")
+        if isinstance(v, (int, float)):
+            from fractions import Fraction
+            fr = Fraction(repr(v)) if isinstance(v, float) else Fraction(v)
+            return "DNum (%d # %d)" % (fr.numerator, fr.denominator)
+        if isinstance(v, str):
+            return "DStr %s" % _cstr(v)
+    if isinstance(node, ast.UnaryOp) and isinstance(node.op, ast.USub) and isinstance(node.operand, ast.Constant):
+        from fractions import Fraction
+        fr = -Fraction(repr(node.operand.value))
+        return "DNum (%d # %d)" % (fr.numerator, fr.denominator)
+    return "DOther"
+
+
+@target("Defaults")
+def gen_defaults():
+    out = ["(** GENERATED by tools/translate.py: default values of the public signatures — do not edit. *)",
+           "From Coq Require Import QArith String List.", "Import ListNotations.", "Open Scope string_scope.", "",
+           "Inductive dval := DNone | DBool (b : bool) | DNum (q : Q) | DStr (s : string) | DOther.", ""]
+    rows = []
+    for fn in DEFAULT_FILES:
+        tree = ast.parse(_src(fn))
+        mod = os.path.basename(fn)[:-3]
+
+        def visit(fdef, prefix):
+            args = fdef.args
+            pos = args.args
+            for a, d in zip(pos[len(pos) - len(args.defaults):], args.defaults):
+                rows.append("  (%s, %s)" % (_cstr("%s%s.%s" % (prefix, fdef.name, a.arg)), _dv(d)))
+            for a, d in zip(args.kwonlyargs, args.kw_defaults):
+                if d is not None:
+                    rows.append("  (%s, %s)" % (_cstr("%s%s.%s" % (prefix, fdef.name, a.arg)), _dv(d)))
+        for node in tree.body:
+            if isinstance(node, ast.FunctionDef):
+                visit(node, mod + ".")
+            elif isinstance(node, ast.ClassDef):
+                for sub in node.body:
+                    if isinstance(sub, ast.FunctionDef):
+                        visit(sub, mod + "." + node.name + ".")
+    out.append("Definition defaults : list (string * dval) := [\n" + ";\n".join(rows) + "\n].\n")
+    out.append("Fixpoint default_of (k : string) (l : list (string * dval)) : option dval :=\n  match l with [] => None | (k', v) :: l' => if String.eqb k k' then Some v else default_of k l' end.\n")
+    return "\n".join(out)
+
+
 # MAIN-BLOCK (keep last)
 if __name__ == "__main__":
     import sys
